@@ -1,9 +1,18 @@
 package c10
 
 import (
+	"context"
 	"fmt"
+	"math/rand/v2"
+	"sort"
+	"strings"
+	"sync"
+	"sync/atomic"
+	"time"
 
 	"github.com/buildbarn/bb-remote-execution/pkg/builder"
+	"github.com/buildbarn/bb-remote-execution/pkg/filesystem/virtual"
+	"github.com/buildbarn/bb-storage/pkg/filesystem/path"
 
 	"verif/internal/outkit"
 	"verif/internal/vclock"
@@ -27,5 +36,464 @@ func (virtualBackend) open(h *harness, cas *outkit.Store, plan *outkit.Plan) (bu
 		if errs := v.Errors.Errors(); len(errs) > 0 {
 			panic(fmt.Sprintf("harness: virtual file system logged errors: %v", errs))
 		}
+	}
+}
+
+// --- stragglers ---------------------------------------------------------------
+//
+// A straggler is a writer (think: a daemonised child of the action that
+// process table cleaning did not reap) that still holds an output file
+// open for writing when the runner returns. The virtual build directory has
+// to hold back the upload of such a file until the writer closed it, for at
+// most maximumWritableFileUploadDelay; what the ActionResult (or the Tree of
+// the enclosing output directory) reports is the file as the writer left it.
+
+// stragglerWrite is one write the straggler performs after the runner
+// returned.
+type stragglerWrite struct {
+	Offset int
+	Data   []byte
+}
+
+// stragglerFile describes one output file with a lingering writer.
+type stragglerFile struct {
+	Loc  []string // location below the input root
+	Mode string   // append, overwrite, append+overwrite, truncate
+	Exec bool
+	// Partial is what the file holds when the runner returns.
+	Partial []byte
+	// Writes and TruncateTo (-1: no truncation) turn Partial into the
+	// contents of the model (cs.Final).
+	Writes     []stragglerWrite
+	TruncateTo int
+	// AsOutputFile: the location itself is declared; InOutputDirectory:
+	// it lies inside a declared location that is a directory.
+	AsOutputFile      bool
+	InOutputDirectory bool
+}
+
+// stragglerPlan is the generated part: which files have a lingering writer
+// and whether the writers close in time.
+type stragglerPlan struct {
+	Files []stragglerFile
+	// NeverCloses: the writers do not close before the delay expires (the
+	// harness makes the delay expire once the upload reached the first of
+	// the files). The upload then goes ahead with what is there.
+	NeverCloses bool
+}
+
+func (sp *stragglerPlan) describe() string {
+	if sp == nil {
+		return ""
+	}
+	var parts []string
+	for _, f := range sp.Files {
+		parts = append(parts, fmt.Sprintf("%s mode=%s partial=%dB writes=%d truncate_to=%d output_file=%v in_output_directory=%v",
+			strings.Join(f.Loc, "/"), f.Mode, len(f.Partial), len(f.Writes), f.TruncateTo, f.AsOutputFile, f.InOutputDirectory))
+	}
+	return fmt.Sprintf("never_closes=%v [%s]", sp.NeverCloses, strings.Join(parts, "; "))
+}
+
+// genStragglers picks one or two regular files the action creates at or
+// below declared locations and decides what their lingering writer does.
+// It returns nil when the case offers no such file. The model (cs.Final) is
+// left as it is: it describes the files after the writers closed.
+func genStragglers(rng *rand.Rand, cs *caseSpec) *stragglerPlan {
+	if len(cs.Invalid) > 0 {
+		return nil
+	}
+	type cand struct {
+		loc          []string
+		asFile, inDy bool
+	}
+	byKey := map[string]*cand{}
+	var keys []string
+	note := func(loc []string, asFile bool) {
+		if cs.InputRoot.Lookup(loc) != nil {
+			return // an input file: read-only, not the action's
+		}
+		k := strings.Join(loc, "/")
+		c := byKey[k]
+		if c == nil {
+			c = &cand{loc: append([]string(nil), loc...)}
+			byKey[k] = c
+			keys = append(keys, k)
+		}
+		if asFile {
+			c.asFile = true
+		} else {
+			c.inDy = true
+		}
+	}
+	var walk func(n *outkit.Node, loc []string)
+	walk = func(n *outkit.Node, loc []string) {
+		for _, name := range n.Names() {
+			c := n.Children[name]
+			sub := append(append([]string(nil), loc...), name)
+			switch c.Kind {
+			case outkit.KindFile:
+				note(sub, false)
+			case outkit.KindDir:
+				walk(c, sub)
+			}
+		}
+	}
+	for _, loc := range cs.Locations {
+		n := cs.Final.Lookup(loc)
+		if n == nil {
+			continue
+		}
+		switch n.Kind {
+		case outkit.KindFile:
+			if len(loc) > 0 {
+				note(loc, true)
+			}
+		case outkit.KindDir:
+			walk(n, loc)
+		}
+	}
+	if len(keys) == 0 {
+		return nil
+	}
+	sort.Strings(keys)
+	var files, inDirs []string
+	for _, k := range keys {
+		if byKey[k].asFile {
+			files = append(files, k)
+		}
+		if byKey[k].inDy {
+			inDirs = append(inDirs, k)
+		}
+	}
+	// One of each kind when the case has both, sometimes a second one of
+	// the same kind.
+	chosen := map[string]bool{}
+	var order []string
+	pick := func(l []string) {
+		if len(l) > 0 {
+			if k := l[rng.IntN(len(l))]; !chosen[k] {
+				chosen[k] = true
+				order = append(order, k)
+			}
+		}
+	}
+	pick(files)
+	pick(inDirs)
+	if rng.IntN(3) == 0 {
+		pick(keys)
+	}
+	sp := &stragglerPlan{NeverCloses: rng.IntN(3) == 0}
+	for _, k := range order {
+		c := byKey[k]
+		n := cs.Final.Lookup(c.loc)
+		f := stragglerFile{Loc: c.loc, Exec: n.Exec, TruncateTo: -1, AsOutputFile: c.asFile, InOutputDirectory: c.inDy}
+		data := n.Data
+		mode := rng.IntN(4)
+		if len(data) == 0 || (mode == 2 && len(data) < 2) {
+			mode = 3
+		}
+		scribble := func(p []byte, a, b int) {
+			for i := a; i < b; i++ {
+				p[i] = '#' // never part of generated contents
+			}
+		}
+		switch mode {
+		case 0:
+			f.Mode = "append"
+			k := rng.IntN(len(data))
+			f.Partial = append([]byte(nil), data[:k]...)
+			f.Writes = []stragglerWrite{{Offset: k, Data: data[k:]}}
+		case 1:
+			f.Mode = "overwrite"
+			a := rng.IntN(len(data))
+			b := a + 1 + rng.IntN(len(data)-a)
+			f.Partial = append([]byte(nil), data...)
+			scribble(f.Partial, a, b)
+			f.Writes = []stragglerWrite{{Offset: a, Data: data[a:b]}}
+		case 2:
+			f.Mode = "append+overwrite"
+			k := 1 + rng.IntN(len(data)-1)
+			a := rng.IntN(k)
+			b := a + 1 + rng.IntN(k-a)
+			f.Partial = append([]byte(nil), data[:k]...)
+			scribble(f.Partial, a, b)
+			f.Writes = []stragglerWrite{{Offset: k, Data: data[k:]}, {Offset: a, Data: data[a:b]}}
+		default:
+			f.Mode = "truncate"
+			f.Partial = append([]byte(nil), data...)
+			for i, extra := 0, 1+rng.IntN(50); i < extra; i++ {
+				f.Partial = append(f.Partial, '#')
+			}
+			f.TruncateTo = len(data)
+		}
+		// Self-check of the generator: the writes lead to the model.
+		got := append([]byte(nil), f.Partial...)
+		for _, w := range f.Writes {
+			if end := w.Offset + len(w.Data); end > len(got) {
+				got = append(got, make([]byte, end-len(got))...)
+			}
+			copy(got[w.Offset:], w.Data)
+		}
+		if f.TruncateTo >= 0 {
+			got = got[:f.TruncateTo]
+		}
+		if string(got) != string(data) || string(f.Partial) == string(data) {
+			panic(fmt.Sprintf("harness: straggler plan for %q does not lead from the partial to the final contents", k))
+		}
+		sp.Files = append(sp.Files, f)
+	}
+	return sp
+}
+
+// stragglerReachDelay is how long a writer keeps its file open after the
+// upload reached the file without the upload having returned. It only
+// affects reach: code that waits for the writer gives the same result for
+// any value; code that does not wait is normally seen returning (which
+// releases the writer at once) long before it elapses.
+const stragglerReachDelay = 100 * time.Millisecond
+
+// stragglerFallbackDelay releases a writer whose file the upload never
+// reached, so that a harness-side mismatch cannot hang the run.
+const stragglerFallbackDelay = 20 * time.Second
+
+type stragglerHandle struct {
+	f                     *stragglerFile
+	leaf                  virtual.Leaf
+	entered               chan struct{} // UploadFile was called for the file
+	returned              chan struct{} // UploadFile returned
+	enterOnce, returnOnce sync.Once
+
+	mu                sync.Mutex
+	closed            bool // the writer closed its descriptor
+	reachedWhileOpen  bool // UploadFile was called while the writer held the file
+	returnedWhileOpen bool
+	fallback          bool
+}
+
+// stragglerRun is the run-time side of a stragglerPlan for one run of a
+// case.
+type stragglerRun struct {
+	sp *stragglerPlan
+	// atReturn is the hierarchy as it is when the runner returns (the
+	// straggler files hold their partial contents); withoutFiles is
+	// atReturn minus the straggler files.
+	atReturn, withoutFiles *outkit.Node
+	// expire makes the writable file upload delay elapse.
+	expire     func()
+	expireOnce sync.Once
+	expired    atomic.Bool
+
+	mu       sync.Mutex
+	byDetail map[string]*stragglerHandle
+	handles  []*stragglerHandle
+	finish   chan struct{}
+	wg       sync.WaitGroup
+}
+
+func newStragglerRun(cs *caseSpec, expire func()) *stragglerRun {
+	sr := &stragglerRun{sp: cs.Stragglers, expire: expire, byDetail: map[string]*stragglerHandle{}, finish: make(chan struct{})}
+	sr.atReturn = cs.Final.Clone()
+	sr.withoutFiles = cs.Final.Clone()
+	for _, f := range sr.sp.Files {
+		sr.atReturn.Lookup(f.Loc).Data = append([]byte(nil), f.Partial...)
+		delete(sr.withoutFiles.Lookup(f.Loc[:len(f.Loc)-1]).Children, f.Loc[len(f.Loc)-1])
+	}
+	return sr
+}
+
+// onOp is the outkit.Plan observer: it sees the UploadFile calls of the
+// worker code, in the goroutine of the worker code.
+func (sr *stragglerRun) onOp(component, op, detail string, done bool) {
+	if component != "dir" || op != "UploadFile" {
+		return
+	}
+	sr.mu.Lock()
+	h := sr.byDetail[detail]
+	sr.mu.Unlock()
+	if h == nil {
+		return
+	}
+	h.mu.Lock()
+	open := !h.closed
+	if open && !done {
+		h.reachedWhileOpen = true
+	}
+	if open && done {
+		h.returnedWhileOpen = true
+	}
+	h.mu.Unlock()
+	if !done {
+		h.enterOnce.Do(func() { close(h.entered) })
+		if sr.sp.NeverCloses && open {
+			sr.fireExpiry()
+		}
+	} else {
+		h.returnOnce.Do(func() { close(h.returned) })
+	}
+}
+
+func (sr *stragglerRun) fireExpiry() {
+	sr.expireOnce.Do(func() {
+		sr.expired.Store(true)
+		sr.expire()
+	})
+}
+
+// materialize acts as the action with lingering writers: everything but
+// the straggler files is produced and closed; the straggler files are
+// created through VirtualOpenChild with write access, receive their partial
+// contents and stay open. detailPrefix is how the plan observer names the
+// input root ("./" for the direct driver).
+func (sr *stragglerRun) materialize(root virtual.Directory, detailPrefix string) error {
+	if err := outkit.MaterializeVirtual(root, sr.withoutFiles); err != nil {
+		return err
+	}
+	ctx := context.Background()
+	for i := range sr.sp.Files {
+		f := &sr.sp.Files[i]
+		d := root
+		for _, c := range f.Loc[:len(f.Loc)-1] {
+			var out virtual.Attributes
+			child, s := d.VirtualLookup(ctx, path.MustNewComponent(c), 0, &out)
+			if s != virtual.StatusOK {
+				return fmt.Errorf("straggler %q: lookup %q: status %v", strings.Join(f.Loc, "/"), c, s)
+			}
+			dir, _ := child.GetPair()
+			if dir == nil {
+				return fmt.Errorf("straggler %q: %q is not a directory", strings.Join(f.Loc, "/"), c)
+			}
+			d = dir
+		}
+		var attr, out virtual.Attributes
+		perm := virtual.PermissionsRead | virtual.PermissionsWrite
+		if f.Exec {
+			perm |= virtual.PermissionsExecute
+		}
+		attr.SetPermissions(perm)
+		leaf, _, _, s := d.VirtualOpenChild(ctx, path.MustNewComponent(f.Loc[len(f.Loc)-1]), virtual.ShareMaskWrite, &attr, nil, 0, &out)
+		if s != virtual.StatusOK {
+			return fmt.Errorf("straggler %q: create: status %v", strings.Join(f.Loc, "/"), s)
+		}
+		if err := writeAll(leaf, f.Partial, 0); err != nil {
+			leaf.VirtualClose(virtual.ShareMaskWrite)
+			return fmt.Errorf("straggler %q: %w", strings.Join(f.Loc, "/"), err)
+		}
+		h := &stragglerHandle{f: f, leaf: leaf, entered: make(chan struct{}), returned: make(chan struct{})}
+		sr.mu.Lock()
+		sr.byDetail[detailPrefix+strings.Join(f.Loc, "/")] = h
+		sr.handles = append(sr.handles, h)
+		sr.mu.Unlock()
+	}
+	// The writers live on after the runner returned.
+	for _, h := range sr.handles {
+		sr.wg.Add(1)
+		go sr.linger(h)
+	}
+	return nil
+}
+
+func writeAll(leaf virtual.Leaf, data []byte, offset int) error {
+	for off := 0; off < len(data); {
+		n, s := leaf.VirtualWrite(context.Background(), data[off:], uint64(offset+off))
+		if s != virtual.StatusOK || n == 0 {
+			return fmt.Errorf("write at %d: status %v", offset+off, s)
+		}
+		off += n
+	}
+	return nil
+}
+
+// linger is the writer. It finishes its file and closes it when the upload
+// was seen going ahead without it, when the upload has been at the file for
+// stragglerReachDelay, or when the worker code is done; a writer that never
+// closes in time only closes once the worker code is done.
+func (sr *stragglerRun) linger(h *stragglerHandle) {
+	defer sr.wg.Done()
+	fallback := time.NewTimer(stragglerFallbackDelay)
+	defer fallback.Stop()
+	if sr.sp.NeverCloses {
+		select {
+		case <-sr.finish:
+		case <-fallback.C:
+			h.mu.Lock()
+			h.fallback = true
+			h.mu.Unlock()
+			sr.fireExpiry()
+			// Do not hang the run on code that ignores the delay.
+			again := time.NewTimer(stragglerFallbackDelay)
+			select {
+			case <-sr.finish:
+			case <-again.C:
+			}
+			again.Stop()
+		}
+	} else {
+		select {
+		case <-h.entered:
+			reach := time.NewTimer(stragglerReachDelay)
+			select {
+			case <-h.returned:
+			case <-reach.C:
+			case <-sr.finish:
+			}
+			reach.Stop()
+		case <-sr.finish:
+		case <-fallback.C:
+			h.mu.Lock()
+			h.fallback = true
+			h.mu.Unlock()
+		}
+		ctx := context.Background()
+		for _, w := range h.f.Writes {
+			if err := writeAll(h.leaf, w.Data, w.Offset); err != nil {
+				panic(fmt.Sprintf("harness: straggler %q: %v", strings.Join(h.f.Loc, "/"), err))
+			}
+		}
+		if h.f.TruncateTo >= 0 {
+			var in, out virtual.Attributes
+			in.SetSizeBytes(uint64(h.f.TruncateTo))
+			if s := h.leaf.VirtualSetAttributes(ctx, &in, virtual.AttributesMaskSizeBytes, &out); s != virtual.StatusOK {
+				panic(fmt.Sprintf("harness: straggler %q: truncate: status %v", strings.Join(h.f.Loc, "/"), s))
+			}
+		}
+	}
+	h.mu.Lock()
+	h.closed = true
+	h.mu.Unlock()
+	h.leaf.VirtualClose(virtual.ShareMaskWrite)
+}
+
+// settle is called once the worker code returned: it releases the writers
+// that are still around, waits for them and reports what was reached.
+func (sr *stragglerRun) settle(cs *caseSpec, driver string, counters map[string]int) {
+	close(sr.finish)
+	sr.wg.Wait()
+	for _, h := range sr.handles {
+		h.mu.Lock()
+		if h.reachedWhileOpen {
+			if h.f.AsOutputFile {
+				cs.Situations["straggler:output-file-open-for-writing-at-upload"] = true
+			}
+			if h.f.InOutputDirectory {
+				cs.Situations["straggler:file-inside-output-directory"] = true
+			}
+			cs.Situations["straggler:writer-mode-"+h.f.Mode] = true
+			cs.Situations["straggler:driver-"+driver] = true
+			if sr.sp.NeverCloses {
+				cs.Situations["straggler:delay-expired-writer-still-open"] = true
+			} else {
+				cs.Situations["straggler:writer-closed-within-delay"] = true
+			}
+		}
+		if h.returnedWhileOpen && !sr.sp.NeverCloses {
+			counters["straggler-uploads-returned-while-the-writer-was-open"]++
+		}
+		if h.fallback {
+			counters["straggler-fallback-timers-fired"]++
+		}
+		h.mu.Unlock()
+	}
+	if len(sr.handles) > 1 {
+		cs.Situations["straggler:two-or-more-files"] = true
 	}
 }
